@@ -5,7 +5,7 @@ from vlib.pyvc.api import CLASSES, classes, contract
 classes(
     "parglare.grammar",
     Symbol=dict(fields={"dynamic": "bool", "prefer": "bool", "name": "str", "prior": "int"}),
-    Production=dict(fields={"dynamic": "bool", "prod_id": "int"}),
+    Production=dict(fields={"dynamic": "bool", "prod_id": "int", "rhs": "list[any]"}),
     StringRecognizer=dict(fields={"value": "str", "value_cmp": "str", "ignore_case": "bool", "name": "str"}),
 )
 classes(
@@ -16,8 +16,13 @@ classes(
 )
 classes(
     "parglare.parser",
-    DynCtx=dict(fields={"token": "opt[ref[Token]]", "token_ahead": "opt[ref[Token]]", "production": "any"}),
-    ParserD=dict(fields={"dynamic_filter": "func", "debug": "bool", "table": "ref[Table]", "lexical_disambiguation": "bool"}),
+    DynCtx=dict(fields={"token": "opt[ref[Token]]", "token_ahead": "opt[ref[Token]]", "production": "any",
+                        "state": "ref[LRStateT]"}),
+    StackNode=dict(fields={"results": "any"}),
+    # (a typed view of Parser; `bases` lets calls of self.<method> find the contracts registered for Parser)
+    ParserD=dict(bases=("Parser",), fields={"dynamic_filter": "func", "debug": "bool", "table": "ref[Table]", "lexical_disambiguation": "bool",
+                         "parse_stack": "list[ref[StackNode]]"}),
+    Act=dict(fields={"action": "int", "state": "opt[ref[LRStateT]]", "prod": "opt[ref[Production]]"}),
     Tok=dict(fields={"symbol": "ref[Symbol]", "value": "any", "length": "int", "position": "opt[int]",
                      "additional_data": "any"}, truthy="always"),
 )
@@ -51,6 +56,59 @@ contract("parglare.parser.Parser._call_dynamic_filter",
          canaries=[("verdict-inverted", {"ensures": [
              "implies(action == 1 and production.dynamic, "
              "result == (not bool(self.dynamic_filter(context, from_state, to_state, action, production, subresults))))"]})])
+
+# ---- C18 (LR side): the candidate actions of a state are filtered one by one --------------------------------------
+KEPT = "exists(0, len(result), lambda j: result[j] == actions[k])"
+contract("parglare.parser.Parser._dynamic_disambiguation",
+         params={"self": "ref[ParserD]", "context": "ref[DynCtx]", "actions": "list[ref[Act]]"},
+         returns="list[ref[Act]]",
+         requires=["not self.debug",
+                   "forall(0, len(actions), lambda k: allocated(actions[k]))",
+                   "forall(0, len(actions), lambda k: implies(actions[k].action == 0, actions[k].state is not None))",
+                   "forall(0, len(actions), lambda k: implies(actions[k].action == 1, actions[k].prod is not None and "
+                   "len(actions[k].prod.rhs) <= len(self.parse_stack)))",
+                   # (the actions of a table cell are distinct objects)
+                   "forall(0, len(actions), lambda k: forall(0, k, lambda m: actions[m] != actions[k]))"],
+         ensures=[
+             "fresh(result)",
+             # only offered actions survive
+             "forall(0, len(result), lambda j: exists(0, len(actions), lambda k: result[j] == actions[k]))",
+             # actions that are neither SHIFT nor REDUCE (ACCEPT) are kept
+             "forall(0, len(actions), lambda k: implies(actions[k].action != 0 and actions[k].action != 1, " + KEPT + "))",
+             # unmarked shifts and reductions are kept without consulting the filter
+             "forall(0, len(actions), lambda k: implies(actions[k].action == 0 and not actions[k].state.symbol.dynamic, " + KEPT + "))",
+             "forall(0, len(actions), lambda k: implies(actions[k].action == 1 and not actions[k].prod.dynamic, " + KEPT + "))",
+             # a marked shift the filter accepts is kept
+             "forall(0, len(actions), lambda k: implies(actions[k].action == 0 and actions[k].state.symbol.dynamic and "
+             "bool(self.dynamic_filter(context, context.state, actions[k].state, 0, None, None)), " + KEPT + "))",
+             # a marked shift the filter rejects is NOT taken
+             "forall(0, len(actions), lambda k: implies(actions[k].action == 0 and actions[k].state.symbol.dynamic and "
+             "not bool(self.dynamic_filter(context, context.state, actions[k].state, 0, None, None)), "
+             "not exists(0, len(result), lambda j: result[j] == actions[k])))",
+         ],
+         modifies=["context.token", "context.production"], globals=G,
+         opaque={"ParserD.dynamic_filter": {"returns": "bool", "pure": True}},
+         callees={"self._call_dynamic_filter": "parglare.parser.Parser._call_dynamic_filter"},
+         locals={"dyn_actions": "list[ref[Act]]", "results": "list[any]"},
+         loops={0: {"inv": [
+             "fresh(dyn_actions)",
+             "forall(0, len(dyn_actions), lambda j: exists(0, __i0, lambda k: dyn_actions[j] == actions[k]))",
+             "forall(0, __i0, lambda k: implies(actions[k].action != 0 and actions[k].action != 1, "
+             "exists(0, len(dyn_actions), lambda j: dyn_actions[j] == actions[k])))",
+             "forall(0, __i0, lambda k: implies(actions[k].action == 0 and not actions[k].state.symbol.dynamic, "
+             "exists(0, len(dyn_actions), lambda j: dyn_actions[j] == actions[k])))",
+             "forall(0, __i0, lambda k: implies(actions[k].action == 1 and not actions[k].prod.dynamic, "
+             "exists(0, len(dyn_actions), lambda j: dyn_actions[j] == actions[k])))",
+             "forall(0, __i0, lambda k: implies(actions[k].action == 0 and actions[k].state.symbol.dynamic and "
+             "bool(self.dynamic_filter(context, context.state, actions[k].state, 0, None, None)), "
+             "exists(0, len(dyn_actions), lambda j: dyn_actions[j] == actions[k])))",
+             "forall(0, __i0, lambda k: implies(actions[k].action == 0 and actions[k].state.symbol.dynamic and "
+             "not bool(self.dynamic_filter(context, context.state, actions[k].state, 0, None, None)), "
+             "not exists(0, len(dyn_actions), lambda j: dyn_actions[j] == actions[k])))",
+         ]}},
+         properties=("C18",),
+         canaries=[("rejected-shift-kept", {"ensures": [
+             "forall(0, len(actions), lambda k: implies(actions[k].action == 0 and actions[k].state.symbol.dynamic, " + KEPT + "))"]})])
 
 # ---- C04: construction is gated by unhandled conflicts ---------------------------------------------------------
 contract("parglare.parser.Parser._check_parser",
